@@ -171,4 +171,31 @@ theorem dictEq_reverse (d : Dict Nat FVal) (h : NodupKeys d) : dictEq d d.revers
 theorem FD.twin_items (u : FD) (h : NodupKeys u.items) : (FD.ofPairs u.items.reverse).items = u.items.reverse :=
   FD.ofPairs_items_of_nodup _ (nodupKeys_reverse _ h)
 
+
+section ctorAs
+variable {α : Type} [DecidableEq α]
+
+/-- the acceptance-style constructor: whatever admissible outcome the implementation reports, the instance holds only
+    items of `dict(pairs)` and loses no value of it (the fallback is `ofPairs`, for which this is `ofPairs_sub` /
+    `ofPairs_values_kept`) -/
+theorem OTO.ofPairsAs_spec (ps hint : List (α × α)) :
+    (∀ k v, lookup k (OTO.ofPairsAs ps hint).fwd = some v → lookup k (putAll ([] : Dict α α) ps) = some v) ∧
+    (∀ k v, lookup k (putAll ([] : Dict α α) ps) = some v → ∃ k', lookup k' (OTO.ofPairsAs ps hint).fwd = some v) := by
+  unfold OTO.ofPairsAs
+  split
+  · next h =>
+    simp only [OTO.admissible, Bool.and_eq_true, decide_eq_true_eq, List.all_eq_true] at h
+    obtain ⟨⟨⟨hk, _⟩, hsub⟩, hval⟩ := h
+    constructor
+    · intro k v hl
+      exact hsub (k, v) ((mem_iff_lookup hint hk k v).2 hl)
+    · intro k v hl
+      have hd : NodupKeys (putAll ([] : Dict α α) ps) := putAll_nodup _ _ nodupKeys_nil
+      have hm := hval (k, v) ((mem_iff_lookup _ hd k v).2 hl)
+      simp only [List.mem_map] at hm
+      obtain ⟨p, hp, e⟩ := hm
+      exact ⟨p.1, by rw [← e]; exact (mem_iff_lookup hint hk p.1 p.2).1 hp⟩
+  · exact ⟨OTO.ofPairs_sub ps, OTO.ofPairs_values_kept ps⟩
+
+end ctorAs
 end C17
